@@ -32,8 +32,20 @@ B = bytes.fromhex
 # scratch space: a tmpfs when there is one (thousands of tiny directories per run), never /repo or /verif
 SCRATCH = "/dev/shm" if os.path.isdir("/dev/shm") and os.access("/dev/shm", os.W_OK) else None
 
-_HOOK = {"on": False, "dir": None, "log": None}
+_HOOK = {"on": False, "dir": None, "log": None, "busy": False, "opened": None}
 _INSTALLED = []
+_EVENTS = ("os.remove", "os.rmdir", "os.mkdir", "os.symlink", "os.link", "os.truncate")
+
+
+def _contents(paths):
+    out = {}
+    for p in paths:
+        try:
+            with open(p, "rb") as f:
+                out[p] = f.read()
+        except OSError:
+            pass
+    return out
 
 
 def _install():
@@ -42,29 +54,97 @@ def _install():
     _INSTALLED.append(1)
 
     def hook(event, args):
-        if not _HOOK["on"]:
+        if not _HOOK["on"] or _HOOK["busy"]:
+            return
+        if event != "open" and event != "os.rename" and event not in _EVENTS:
             return
         d = _HOOK["dir"]
+        _HOOK["busy"] = True
         try:
+            # what the files opened for writing hold NOW, i.e. before this call takes effect
+            snap = _contents(_HOOK["opened"])
             if event == "open":
                 p, mode, flags = args
                 if isinstance(p, (str, bytes)) and os.fsdecode(p).startswith(d):
-                    _HOOK["log"].append(("open", os.fsdecode(p), flags))
+                    p = os.fsdecode(p)
+                    _HOOK["log"].append(("open", p, flags, snap))
+                    if flags is not None and flags & (os.O_WRONLY | os.O_RDWR) and p not in _HOOK["opened"]:
+                        _HOOK["opened"].append(p)
             elif event == "os.rename":
                 src, dst = os.fsdecode(args[0]), os.fsdecode(args[1])
                 if src.startswith(d) or dst.startswith(d):
-                    try:
-                        with open(src, "rb") as f:   # (this open is filtered out below)
-                            content = f.read()
-                    except OSError:
-                        content = None
-                    _HOOK["log"].append(("rename", src, dst, content))
-            elif event in ("os.remove", "os.rmdir", "os.mkdir", "os.symlink", "os.link", "os.truncate"):
-                _HOOK["log"].append((event, os.fsdecode(args[0])))
+                    _HOOK["log"].append(("rename", src, dst, snap))
+                    if src in _HOOK["opened"]:
+                        _HOOK["opened"][_HOOK["opened"].index(src)] = dst
+            else:
+                p = os.fsdecode(args[0])
+                if p.startswith(d):
+                    _HOOK["log"].append((event, p, None, snap))
         except Exception as e:  # never let the hook disturb the code under test
-            _HOOK["log"].append(("hook-error", repr(e)))
+            _HOOK["log"].append(("hook-error", repr(e), None, {}))
+        finally:
+            _HOOK["busy"] = False
 
     sys.addaudithook(hook)
+
+
+def record(base, fn):
+    """run fn() with the recorder on for paths below base -> (result or raised OSError, events).
+    Every event carries the contents, just before it, of the files opened for writing so far; a final
+    pseudo-event ("end") carries them after fn returned."""
+    _install()
+    log, opened = [], []
+    _HOOK.update(on=True, dir=base + os.sep, log=log, opened=opened, busy=False)
+    err = None
+    out = None
+    try:
+        out = fn()
+    except OSError as e:
+        err = e
+    finally:
+        _HOOK["on"] = False
+    log.append(("end", None, None, _contents(opened)))
+    return out, err, log
+
+
+def translate(log, rel, notes):
+    """events -> atomic steps (names through rel()).  Bytes are attributed to the moment they are first
+    seen in a file: a write becomes one 'a' step per byte, placed before the event at which it was observed."""
+    steps = []
+    have = {}            # current path of a file opened for writing -> bytes already turned into steps
+    for ev in log:
+        kind, a, b, snap = ev
+        for p, content in snap.items():
+            if p in have:
+                old = have[p]
+                if not content.startswith(old):
+                    notes.append("rewrite:" + rel(p))
+                    old = b""
+                steps += [("a", rel(p), byte) for byte in content[len(old):]]
+                have[p] = content
+        if kind == "open":
+            if b is None or (b & (os.O_WRONLY | os.O_RDWR)) == 0:
+                continue
+            if b & os.O_EXCL:
+                steps.append(("x", rel(a)))
+            elif b & os.O_CREAT and b & os.O_TRUNC:
+                steps.append(("c", rel(a)))
+            else:
+                notes.append(f"unexpected-open-flags:{b:o}")
+                steps.append(("c", rel(a)))
+            have[a] = b""
+        elif kind == "rename":
+            steps.append(("r", rel(a), rel(b)))
+            if a in have:
+                have[b] = have.pop(a)
+        elif kind == "os.remove":
+            steps.append(("u", rel(a)))
+            have.pop(a, None)
+        elif kind == "hook-error":
+            notes.append("hook-error")
+        elif kind != "end":
+            notes.append("unexpected-call:" + kind + ":" + rel(a))
+    return steps
 
 
 def op_data(op) -> bytes:
@@ -203,64 +283,18 @@ def _impl(case, base) -> str:
     rename = {}
     failed_at = None
     for i, op in enumerate(case["ops"]):
-        log = []
-        _HOOK.update(on=True, dir=live + os.sep, log=log)
-        err = None
-        try:
-            _run_real(live, case, i)
-        except OSError as e:
-            err = type(e).__name__
-        finally:
-            _HOOK["on"] = False
-        # translate the recorded calls into atomic steps
+        _, err, log = record(live, lambda: _run_real(live, case, i))
+        err = type(err).__name__ if err is not None else None
         tmp_c = op_tmp(case, i)
-        mine = []
-        opened = {}
+        # the unpredictable temporarySibling name -> the case's canonical name
         for ev in log:
-            if ev[0] == "hook-error":
-                notes.append("hook-error")
-            elif ev[0] == "open":
+            if ev[0] == "open" and ev[2] is not None and ev[2] & (os.O_WRONLY | os.O_RDWR) and op["api"] == "setContent":
                 n = os.path.basename(ev[1])
-                fl = ev[2]
-                if fl is None or (fl & (os.O_WRONLY | os.O_RDWR)) == 0:
-                    continue                      # read-only opens (including the hook's own) change nothing
-                if op["api"] == "setContent":
-                    pat = re.compile(r"^.{16}" + re.escape(case["target"] + op.get("ext", ".new")) + r"$", re.S)
-                    if not pat.match(n) or n in names(case):
-                        notes.append("unexpected-temp-name:" + n)
-                    rename[n] = tmp_c
-                cn = rename.get(n, n)
-                if fl & os.O_EXCL:
-                    mine.append(("x", cn))
-                elif fl & os.O_TRUNC and fl & os.O_CREAT:
-                    mine.append(("c", cn))
-                else:
-                    notes.append(f"unexpected-open-flags:{fl:o}")
-                    mine.append(("c", cn))
-                opened[cn] = True
-            elif ev[0] == "rename":
-                a, b = rename.get(os.path.basename(ev[1]), os.path.basename(ev[1])), os.path.basename(ev[2])
-                if ev[3] is not None and a in opened:
-                    mine += [("a", a, byte) for byte in ev[3]]
-                mine.append(("r", a, b))
-            elif ev[0] == "os.remove":
-                n = os.path.basename(ev[1])
-                mine.append(("u", rename.get(n, n)))
-            else:
-                notes.append("unexpected-call:" + ev[0])
-        # a file opened for writing that was never renamed (the operation died first, or wrote in place):
-        # what it wrote is whatever the file holds now; the writes follow its creation
-        for cn in opened:
-            if any(s[0] == "a" and s[1] == cn for s in mine) or any(s[0] == "r" and s[1] == cn for s in mine):
-                continue
-            real = [k for k, v in rename.items() if v == cn] or [cn]
-            try:
-                with open(os.path.join(live, real[0]), "rb") as f:
-                    data = f.read()
-            except OSError:
-                continue
-            at = max(k for k, s in enumerate(mine) if s[0] in "xc" and s[1] == cn) + 1
-            mine[at:at] = [("a", cn, byte) for byte in data]
+                pat = re.compile(r"^.{16}" + re.escape(case["target"] + op.get("ext", ".new")) + r"$", re.S)
+                if not pat.match(n) or n in names(case):
+                    notes.append("unexpected-temp-name:" + n)
+                rename[n] = tmp_c
+        mine = translate(log, lambda p: rename.get(os.path.basename(p), os.path.basename(p)), notes)
         steps += mine
         op_of_step += [i] * len(mine)
         if err is not None:
